@@ -727,9 +727,11 @@ impl EliasFanoBuilder {
     /// `n` numbers smaller than or equal to `u`.
     pub fn new(n: usize, u: usize) -> Self {
         // Integer arithmetic: floating point would give an infinite value for
-        // n == 0 and the impossible width 64 for u close to usize::MAX
-        let l = if n > 0 && u >= n {
-            (u / n).ilog2() as usize
+        // n == 0 and the impossible width 64 for u close to usize::MAX. An
+        // empty sequence is treated as a sequence with one element, so that
+        // the upper bits do not depend on u
+        let l = if u >= n.max(1) {
+            (u / n.max(1)).ilog2() as usize
         } else {
             0
         };
@@ -896,9 +898,11 @@ impl EliasFanoConcurrentBuilder {
     /// numbers smaller than or equal to `u`.
     pub fn new(n: usize, u: usize) -> Self {
         // Integer arithmetic: floating point would give an infinite value for
-        // n == 0 and the impossible width 64 for u close to usize::MAX
-        let l = if n > 0 && u >= n {
-            (u / n).ilog2() as usize
+        // n == 0 and the impossible width 64 for u close to usize::MAX. An
+        // empty sequence is treated as a sequence with one element, so that
+        // the upper bits do not depend on u
+        let l = if u >= n.max(1) {
+            (u / n.max(1)).ilog2() as usize
         } else {
             0
         };
